@@ -1,18 +1,20 @@
 """C11 — concurrent transactions never cross: replies reach only the request they answer."""
 import types
 import ssm_common as S
+import iocb_common as I
 from core import Case
 from pyerr import canon_call
 
 PROP = 'C11'
-COQ_TARGETS = ['theories/SsmFacts.vo', 'theories/SsmC11.vo', 'theories/SsmC11s.vo']
-COQ_IMPORTS = S.COQ_IMPORTS
+COQ_TARGETS = ['theories/SsmFacts.vo', 'theories/SsmC11.vo', 'theories/SsmC11s.vo', 'theories/IocbFacts.vo']
+COQ_IMPORTS = 'From Bac Require Import Base Iocb Ssm SsmWorld.'
 RULE = ('cases: 1..40 concurrent requests from one or two clients over 1..4 servers, application-chosen invoke ids colliding across '
         'peers (and within one peer: refused), answers delayed up to 4 s so that retransmissions meet a transaction still being '
         'processed, up to three faults, forged replies of all six kinds from unasked peers / with ids never allocated / long after '
         'completion; > 256 requests in sequence with long-lived ones in between (counter wrap-around); get_next_invoke_id on '
         'random live sets incl. 254..256 live ids; nodes that are client AND server towards each other with equal ids in both directions and '
-        'late Aborts of both polarities; server applications that park answers and give them from inside a later indication to clients with equal ids.  Compared: the whole canonical trace.  non-trivial = at least one frame, or an '
+        'late Aborts of both polarities; server applications that park answers and give them from inside a later indication to clients with equal ids; stations that differ only in network number or MAC length (1:5, 2:5, 05, 00:05) '
+        'as clients of one server and as servers of one client; IOCB histories with three or more IOCBs queued to one peer and client aborts of waiting ones.  Compared: the whole canonical trace.  non-trivial = at least one frame, or an '
         'allocation with >= 1 live transaction; distinct by scenario.')
 TRUSTED = S.TRUSTED
 ASSUMPTIONS = S.ASSUMPTIONS
@@ -49,15 +51,25 @@ def alloc_cases(rng, n):
 
 def cases(rng, tier):
     out = []
-    for _ in range(900 if tier == 'thorough' else 100):
+    for _ in range(900 if tier == 'thorough' else 70):
         out.append(S.scenario_case(S.gen_concurrent(rng), 'concurrent'))
     for _ in range(3 if tier == 'thorough' else 1):
         out.append(S.scenario_case(S.gen_wrap(rng), 'id-wrap-around'))
-    for _ in range(600 if tier == 'thorough' else 80):
+    for _ in range(600 if tier == 'thorough' else 60):
         out.append(S.scenario_case(S.gen_bidirectional(rng), 'bidirectional'))
     for _ in range(300 if tier == 'thorough' else 40):
         out.append(S.scenario_case(S.gen_park_flush(rng), 'parked-answers'))
     out += alloc_cases(rng, 3000 if tier == 'thorough' else 300)
+    for _ in range(600 if tier == 'thorough' else 40):
+        out.append(S.scenario_case(S.gen_same_mac(rng), 'same-mac-stations'))
+    for _ in range(1000 if tier == 'thorough' else 150):
+        ops, n = I.gen_queue_abort(rng) if rng.random() < 0.5 else I.gen_history(rng)
+        exp, det = I.run_history(ops, n)
+        txt = I.coq_ops(ops)
+        for nm in ('OSubmit', 'OConfirm', 'OAbort', 'ORun'):
+            txt = txt.replace(nm, 'Iocb.' + nm)
+        out.append(Case('iocb-history', 'Iocb.run_ops %d %s' % (n, txt), exp, key=('iocb', repr(ops)),
+                        nontrivial=any(o[0] == 'submit' for o in ops), desc={'ops': ops, 'n': n}))
     return out
 
 
@@ -68,15 +80,36 @@ def direct(rng, tier, focus=()):
             ('bidirectional', lambda r: S.gen_bidirectional(r), 8000 if big else 800),
             ('parked-answers', lambda r: S.gen_park_flush(r), 4000 if big else 400),
             ('transaction', lambda r: S.gen_transaction(r), 8000 if big else 800)]
+    fams.append(('same-mac-stations', lambda r: S.gen_same_mac(r), 6000 if big else 600))
     failures, stats = S.direct_families(rng, fams, S.check_c11, focus)
     failures.extend(S.known_replays('C11', S.check_c11))
+    # replies are paired with the IOCB whose request they answer (per-peer queue of ApplicationIOController)
+    nh = 0
+    for _ in range(15000 if big else 1500):
+        ops, n = I.gen_queue_abort(rng) if rng.random() < 0.5 else I.gen_history(rng)
+        fs, det = I.check_drained(ops, n)
+        nh += 1
+        failures.extend(x for x in fs if x['kind'] in ('iocb-answer-for-other-request', 'iocb-callback-twice'))
+    import core as _core
+    for e in _core.load_findings('C11'):
+        ops = ((e.get('replay') or {}).get('failure') or {}).get('ops')
+        if e.get('status') == 'known' and ops:
+            fs, det = I.check_drained(ops, 2)
+            failures.extend(x for x in fs if x['kind'] == 'iocb-answer-for-other-request')
+    stats['evaluations'] += nh
+    stats['iocb_histories'] = nh
     return failures, stats
 
 
 def classify(f):
     k = f.get('kind')
+    if k == 'iocb-answer-for-other-request' and f.get('active_request_aborted_to_this_peer'):
+        return 'C11-K1'
     return None
 
 
 def replay(payload):
+    if (payload.get('failure') or {}).get('ops'):
+        import props.c04 as c04
+        return c04.replay(payload)
     S.replay_generic(payload, S.check_c11, 'C11')
